@@ -21,6 +21,24 @@ pub enum TcpState {
     /// `SocketError::HostUnreachable`, `icmp_error_info()`
     Unreach(IpAddr),
     Other,
+    /// `take_error()` itself fails with an I/O error
+    TakeErrorFails,
+}
+
+/// what `is_writable` / `is_readable` answer
+#[derive(Clone, Copy, Debug, PartialEq)]
+pub enum Poll {
+    Yes,
+    No,
+    Fails,
+}
+
+/// per-socket state of the sockets created through the static constructors
+#[derive(Clone, Debug)]
+pub struct SockState {
+    pub kind: String,
+    pub writable: Poll,
+    pub tcp: Option<TcpState>,
 }
 
 /// an error to return from a socket call
@@ -45,12 +63,35 @@ pub struct Ctx {
     /// (call name, error): consumed by the next call of that name
     pub inject: Option<(&'static str, Inject)>,
     pub tcp: TcpState,
+    /// sockets by id (creation order), ids of dropped sockets, ids polled with `is_writable`
+    pub socks: Vec<SockState>,
+    pub dropped: Vec<usize>,
+    pub polled: Vec<usize>,
+    /// `None`: `is_readable` is true iff a datagram is queued (the `wire` behaviour)
+    pub readable: Option<Poll>,
+    /// the next `read` / `recv_from` fails with an error other than `WouldBlock`
+    pub read_fails: bool,
+}
+
+impl Ctx {
+    fn fresh() -> Self {
+        Self {
+            ops: vec![], queue: VecDeque::new(), inject: None, tcp: TcpState::Other,
+            socks: vec![], dropped: vec![], polled: vec![], readable: None, read_fails: false,
+        }
+    }
 }
 
 thread_local! {
-    static CTX: RefCell<Ctx> = RefCell::new(Ctx {
-        ops: vec![], queue: VecDeque::new(), inject: None, tcp: TcpState::Other,
-    });
+    static CTX: RefCell<Ctx> = RefCell::new(Ctx::fresh());
+}
+
+/// run `f` in a fresh simulation context and restore the current one afterwards
+pub fn with_scratch<T>(f: impl FnOnce() -> T) -> T {
+    let saved = CTX.with(|c| std::mem::replace(&mut *c.borrow_mut(), Ctx::fresh()));
+    let r = f();
+    CTX.with(|c| *c.borrow_mut() = saved);
+    r
 }
 
 /// clear the recorded calls, the datagram queue and any armed error
@@ -61,7 +102,49 @@ pub fn reset() {
         c.queue.clear();
         c.inject = None;
         c.tcp = TcpState::Other;
+        c.socks.clear();
+        c.dropped.clear();
+        c.polled.clear();
+        c.readable = None;
+        c.read_fails = false;
     });
+}
+/// forget the recorded calls of the previous operation, keep the sockets
+pub fn clear_ops() {
+    CTX.with(|c| {
+        let mut c = c.borrow_mut();
+        c.ops.clear();
+        c.polled.clear();
+        c.queue.clear();
+        c.inject = None;
+        c.read_fails = false;
+    });
+}
+pub fn socket_count() -> usize {
+    CTX.with(|c| c.borrow().socks.len())
+}
+pub fn socket_kind(id: usize) -> String {
+    CTX.with(|c| c.borrow().socks.get(id).map(|s| s.kind.clone()).unwrap_or_default())
+}
+pub fn is_dropped(id: usize) -> bool {
+    CTX.with(|c| c.borrow().dropped.contains(&id))
+}
+pub fn take_polled() -> Vec<usize> {
+    CTX.with(|c| std::mem::take(&mut c.borrow_mut().polled))
+}
+pub fn set_sock(id: usize, writable: Poll, tcp: Option<TcpState>) {
+    CTX.with(|c| {
+        if let Some(s) = c.borrow_mut().socks.get_mut(id) {
+            s.writable = writable;
+            s.tcp = tcp;
+        }
+    });
+}
+pub fn set_readable(p: Option<Poll>) {
+    CTX.with(|c| c.borrow_mut().readable = p);
+}
+pub fn set_read_fails(b: bool) {
+    CTX.with(|c| c.borrow_mut().read_fails = b);
 }
 pub fn take_ops() -> Vec<String> {
     CTX.with(|c| std::mem::take(&mut c.borrow_mut().ops))
@@ -104,13 +187,48 @@ fn failing(call: &str) -> Option<io::Error> {
     })
 }
 
-pub struct SimSocket;
+pub struct SimSocket {
+    /// index into `Ctx::socks`; `usize::MAX` for a socket made with `SimSocket::anon()`
+    pub id: usize,
+}
+
+impl SimSocket {
+    /// a socket that was not created through the trait's constructors (used by `wire`, which
+    /// hands sockets to `Ipv4` / `Ipv6` directly)
+    pub const fn anon() -> Self {
+        Self { id: usize::MAX }
+    }
+    fn tcp_state(&self) -> TcpState {
+        CTX.with(|c| {
+            let c = c.borrow();
+            c.socks.get(self.id).and_then(|s| s.tcp.clone()).unwrap_or_else(|| c.tcp.clone())
+        })
+    }
+}
+
+impl Drop for SimSocket {
+    fn drop(&mut self) {
+        if self.id != usize::MAX {
+            let id = self.id;
+            let _ = CTX.try_with(|c| {
+                if let Ok(mut c) = c.try_borrow_mut() {
+                    c.dropped.push(id);
+                }
+            });
+        }
+    }
+}
 
 fn new_socket(text: String) -> IoResult<SimSocket> {
+    let kind = text.clone();
     record(text);
     match failing("new") {
         Some(e) => Err(IoError::Other(e, IoOperation::NewSocket)),
-        None => Ok(SimSocket),
+        None => Ok(CTX.with(|c| {
+            let mut c = c.borrow_mut();
+            c.socks.push(SockState { kind, writable: Poll::Yes, tcp: None });
+            SimSocket { id: c.socks.len() - 1 }
+        })),
     }
 }
 
@@ -178,12 +296,29 @@ impl Socket for SimSocket {
         failing("send").map_or(Ok(()), |e| Err(IoError::SendTo(e, addr)))
     }
     fn is_readable(&mut self, _timeout: Duration) -> IoResult<bool> {
-        Ok(CTX.with(|c| !c.borrow().queue.is_empty()))
+        match CTX.with(|c| { let c = c.borrow(); c.readable.unwrap_or(if c.queue.is_empty() { Poll::No } else { Poll::Yes }) }) {
+            Poll::Yes => Ok(true),
+            Poll::No => Ok(false),
+            Poll::Fails => Err(IoError::Other(io::Error::from(io::ErrorKind::PermissionDenied), IoOperation::Select)),
+        }
     }
     fn is_writable(&mut self) -> IoResult<bool> {
-        Ok(true)
+        let id = self.id;
+        let w = CTX.with(|c| {
+            let mut c = c.borrow_mut();
+            c.polled.push(id);
+            c.socks.get(id).map_or(Poll::Yes, |s| s.writable)
+        });
+        match w {
+            Poll::Yes => Ok(true),
+            Poll::No => Ok(false),
+            Poll::Fails => Err(IoError::Other(io::Error::from(io::ErrorKind::PermissionDenied), IoOperation::Select)),
+        }
     }
     fn recv_from(&mut self, buf: &mut [u8]) -> IoResult<(usize, Option<SocketAddr>)> {
+        if CTX.with(|c| std::mem::take(&mut c.borrow_mut().read_fails)) {
+            return Err(IoError::Other(io::Error::from(io::ErrorKind::PermissionDenied), IoOperation::RecvFrom));
+        }
         match CTX.with(|c| c.borrow_mut().queue.pop_front()) {
             Some((d, from)) => {
                 let n = d.len().min(buf.len());
@@ -194,6 +329,9 @@ impl Socket for SimSocket {
         }
     }
     fn read(&mut self, buf: &mut [u8]) -> IoResult<usize> {
+        if CTX.with(|c| std::mem::take(&mut c.borrow_mut().read_fails)) {
+            return Err(IoError::Other(io::Error::from(io::ErrorKind::PermissionDenied), IoOperation::Read));
+        }
         match CTX.with(|c| c.borrow_mut().queue.pop_front()) {
             Some((d, _)) => {
                 let n = d.len().min(buf.len());
@@ -207,23 +345,27 @@ impl Socket for SimSocket {
         Ok(())
     }
     fn peer_addr(&mut self) -> IoResult<Option<SocketAddr>> {
-        Ok(CTX.with(|c| match &c.borrow().tcp {
+        Ok(match self.tcp_state() {
             TcpState::Connected(a) => a.map(|a| SocketAddr::new(a, 0)),
             _ => None,
-        }))
+        })
     }
     fn take_error(&mut self) -> IoResult<Option<SocketError>> {
-        Ok(CTX.with(|c| match &c.borrow().tcp {
+        record(format!("takeerr:{}", self.id));
+        Ok(match self.tcp_state() {
             TcpState::Connected(_) => None,
             TcpState::Refused => Some(SocketError::ConnectionRefused),
             TcpState::Unreach(_) => Some(SocketError::HostUnreachable),
             TcpState::Other => Some(SocketError::Other(io::Error::from(io::ErrorKind::TimedOut))),
-        }))
+            TcpState::TakeErrorFails => {
+                return Err(IoError::Other(io::Error::from(io::ErrorKind::PermissionDenied), IoOperation::TakeError))
+            }
+        })
     }
     fn icmp_error_info(&mut self) -> IoResult<IpAddr> {
-        Ok(CTX.with(|c| match &c.borrow().tcp {
-            TcpState::Unreach(a) => *a,
+        Ok(match self.tcp_state() {
+            TcpState::Unreach(a) => a,
             _ => IpAddr::V4(Ipv4Addr::UNSPECIFIED),
-        }))
+        })
     }
 }
